@@ -18,7 +18,6 @@
 use std::collections::HashMap;
 
 use ff::Field;
-use group::Group;
 use midnight_aggregator::verif_hooks::{FakeCurveChip, FakePoint, LightBlstrsEmulation, LightPoseidonFS};
 use midnight_circuits::{
     field::{
@@ -31,7 +30,7 @@ use midnight_circuits::{
     verifier::{
         fixed_bases,
         verif_hooks::{transcript_log_start, transcript_log_take, TranscriptEvent},
-        Accumulator, AssignedAccumulator, AssignedVk, SelfEmulation, VerifierGadget,
+        Accumulator, AssignedAccumulator, AssignedVk, VerifierGadget,
     },
 };
 use midnight_curves::{Bls12, Fq as F, G1Projective as C};
